@@ -43,6 +43,7 @@ def mutants(prog):
         ("grid: points_transform through world", "deepali.core.grid", "grid_points_transform", "return grid.transform(axes=axes, to_axes=to_axes, to_grid=to_grid, vectors=False)", "return to_grid.transform(axes=axes, to_axes=to_axes, to_grid=grid, vectors=False)", "T5x."),
         ("points(CUBE): grid's own flag", "deepali.core.grid", "Grid.points", "self.coords(normalize=axes is Axes.CUBE, align_corners=False, dtype=dtype, device=device)", "self.coords(normalize=axes is Axes.CUBE, dtype=dtype, device=device)", "T5x.modules"),
         ("apply_transform: same-domain shortcut", "deepali.core.grid", "Grid.apply_transform", "if to_grid is not None and to_grid != self or axes is not to_axes:", "if to_grid is not None and (not self.same_domain_as(to_grid)) or axes is not to_axes:", "T5x.resample"),
+        ("hmm: translation written into the caller's matrix", "deepali.core.linalg", "homogeneous_matmul", "c = a.clone()", "c = a.contiguous()", "T5x.modules"),
     ]
     for name, mod, fn, old, new, expect in specs:
         ov = source_sub(prog, mod, fn, old, new)
